@@ -729,7 +729,9 @@ def gen_multi_shift_scenario(rng: random.Random) -> dict:
         conns.reverse()
     if rng.random() < 0.3:
         # the second reader lives in the consumer of the long shift itself (two connections between one pair)
-        conns.append({"src": 0, "seid": 0, "dst": 1, "deid": 1, "sattr": 2, "dattr": 0, "ts": 0, "weak": False, "init": False, "async": False})
+        # (into the OTHER entity: one connection per input key, the assumption of the data-flow monitor)
+        long_deid = next(c["deid"] for c in conns if c["dst"] == 1 and c["init"])
+        conns.append({"src": 0, "seid": 0, "dst": 1, "deid": 1 - long_deid, "sattr": 2, "dattr": 0, "ts": 0, "weak": False, "init": False, "async": False})
     sc = {"sims": sims, "connects": conns, "until": rng.randint(5, 7), "max_loop": 100, "lazy": rng.random() < 0.5, "cache": rng.random() < 0.8,
           "beh_seed": rng.randrange(10 ** 9), "sparse_persistent": False, "future_outputs": False}
     return normalise(sc)
